@@ -4,6 +4,8 @@ instantiation; where it is true every shrink of _itemCount resets the vacated sl
 slots it did not assign sets them to the default item first."""
 import re
 from msa import pair as P
+from msa import ip as IP
+from msa import guards as G
 from msa import ast as A
 from msa import cfg as C
 from msa.facts import AnalysisBroken
@@ -118,7 +120,6 @@ def run(res, tier):
         clear_needed = bool(rets[0]['ch'][0]['v'])
         res.info('DEFAULT-OUTSIDE-WINDOW', ipc[0].where(), '%s: IsPerItemClearNecessary() == %s' % (inst, clear_needed))
         # EnsureSizeAux and the private helpers it was split into (msa/ip.py): the growth obligations follow the code
-        from msa import ip as IP
         ensure_scope = set()
         for f0 in funcs:
             if f0.q.endswith('::EnsureSizeAux'):
@@ -419,6 +420,39 @@ def run(res, tier):
                            'tail lies outside the array), so the next AddTail() stores its item in the wrong slot and a later one overwrites the head' % (f.q, te.text(50), hw['ch'][1].text(30)))
     if n_ht < 1:
         raise AnalysisBroken('HEAD-TAIL: no block assigning both _headIndex and _tailIndex found')
+    # ---- BAD-INDEX: "reports failure (and stays unchanged) exactly when the ideal operation is undefined (bad index, empty)"
+    res.rule('BAD-INDEX', 'a Queue method that takes a logical index and turns it into a slot with InternalizeIndex(index) does so only where `index < _itemCount` (or < GetNumItems()) was established: '
+                          'a bound taken from GetLastValidIndex() cast to unsigned is 0xFFFFFFFF for an empty Queue and rejects nothing', floor=3)
+    n_bi = 0
+    for f in sorted(funcs, key=lambda f: f.line):
+        for p_ in f.params:
+            if f.ptype(p_).replace('const ', '').strip() not in ('unsigned int', 'uint32', 'muscle::uint32') or p_.get('d') is None:
+                continue
+            uses = [c for c in f.walk() if c.is_call() and (c.get('q') or '').endswith('::InternalizeIndex') and c.args() and A.strip_casts(c.args()[0]).get('d') == p_['d']
+                    and not any(a.is_call() and re.search(r'::(PrevIndex|NextIndex)$', a.get('q') or '') for a in c.ancestors())]     # (one past the end, stepped back: a size, not an index)
+            if not uses:
+                continue
+            # only methods that decide validity themselves (they contain a test of the parameter against the item count or the last valid index)
+            tests = [x for x in f.walk() if x['k'] == 'BinaryOperator' and x.get('op') in ('<', '<=', '>', '>=') and any(y['k'] == 'DeclRefExpr' and y.get('d') == p_['d'] for y in x.walk())
+                     and any((y['k'] == 'MemberExpr' and y.get('n') == '_itemCount') or (y.is_call() and re.search(r'::(GetNumItems|GetLastValidIndex)$', y.get('q') or '')) for y in x.walk())]
+            if not tests:
+                continue
+            n_bi += 1
+            bad = None
+            for u in uses:
+                ok_u = False
+                for (cn, t) in G.atoms_at(f, u):
+                    for (l_, op_, r_) in A.rel_forms(cn, t):
+                        if l_['k'] == 'DeclRefExpr' and l_.get('d') == p_['d'] and op_ == '<' and ((r_['k'] == 'MemberExpr' and r_.get('n') == '_itemCount') or (r_.is_call() and (r_.get('q') or '').endswith('::GetNumItems'))):
+                            ok_u = True
+                if not ok_u:
+                    bad = bad or u
+            res.ob('BAD-INDEX', f.where(bad) if bad is not None else f.where(uses[0]), '%s: InternalizeIndex(%s) only under %s < item count' % (f.q.split('::')[-1], p_.get('n'), p_.get('n')), bad is None,
+                   function=f.q, key='BAD-INDEX|%s|%s' % (f.q.split('<')[0] + '::' + f.q.split('::')[-1], p_.get('n')),
+                   message='%s converts `%s` into a slot without `%s < _itemCount` having been established (its own validity test is `%s`): on an empty Queue the operation is accepted, the item count '
+                           'underflows to 4294967295 and later operations read stale slots or fail' % (f.q, p_.get('n'), p_.get('n'), tests[0].text(50)))
+    if n_bi < 3:
+        raise AnalysisBroken('BAD-INDEX: only %d index-validating methods found' % n_bi)
     # ---- ABANDON-INLINE: when an owning-item Queue stops using its inline buffer (its _queue is pointed somewhere else), the inline slots are reset first
     # (they are outside every later item window, and EnsureSizeAux re-adopts the inline buffer on the assumption that its slots hold default items)
     res.rule('ABANDON-INLINE', 'per owning-item instantiation: every statement that points this->_queue at something other than _smallQueue is reached only on paths where `_queue == _smallQueue` was found '
@@ -446,8 +480,6 @@ def run(res, tier):
                                                   and (c.receiver() is None or A.strip_casts(c.receiver())['k'] == 'CXXThisExpr')]
         # a private helper: what every one of its call sites knows about the receiver's buffer holds at its entry (a block that was extracted keeps the facts of the place it was cut from)
         entry_heap = False
-        from msa import ip as IP
-        from msa import guards as G
         cs = IP.call_sites_of(fx, f, r'^muscle::Queue::')
         if cs:
             entry_heap = True
